@@ -213,7 +213,7 @@ def bodies_theorems(prefixes=None):
     names = [l.strip() for l in open(p)] if os.path.exists(p) else []
     if prefixes is not None:
         names = [n for n in names if any(x in n for x in prefixes)]
-    return ["KaVerif.BODIES_table", "KaVerif.BODIES_numdisp_real"] + names
+    return ["KaVerif.BODIES_table", "KaVerif.BODIES_numdisp_real", "KaVerif.BODIES_numsem_real"] + names
 
 
 def bodies_coverage(ctx):
